@@ -14,6 +14,7 @@ import (
 	"fmt"
 	"strings"
 	"sync"
+	"sync/atomic"
 	"time"
 
 	ristretto "github.com/dgraph-io/ristretto/v2"
@@ -178,6 +179,9 @@ func runC14(c *Ctx) {
 		for i := 0; i < 4 && c14Prop == "C14"; i++ {
 			cases = append(cases, c14Case{Kind: "stress"})
 		}
+		for i := 0; i < 2 && c14Prop == "C14"; i++ {
+			cases = append(cases, c14Case{Kind: "backlog"})
+		}
 		var wg sync.WaitGroup
 		for i := range cases {
 			if (i+round)%c.NParts != c.Part {
@@ -194,6 +198,8 @@ func runC14(c *Ctx) {
 					c14Late(c, cs)
 				case "stress":
 					c14Stress(c, cs)
+				case "backlog":
+					c14Backlog(c, cs)
 				}
 			}(cases[i])
 		}
@@ -890,4 +896,113 @@ func c07Held(c *Ctx, cs c14Case) {
 		r.DistinctKey("c07d/%s/%d/%s", cs.Position, cs.Nth, ob)
 	}
 	r.Obs("observations_during_held_sweep", int64(3*cs.NKeys))
+}
+
+// c14Backlog: "every entry whose TTL has elapsed is eventually removed ... as long as the cache keeps processing
+// writes" under a SUSTAINED write backlog: writers keep the write buffer non-empty at every ticker instant (tiny
+// capacity, every admission evicts and runs a slow OnEvict in the applier). Bounded restatement: once the entry's
+// bucket has been sweepable for 3 s (six ticker periods) and the applier has applied at least 1000 items in that
+// time, the entry must have been reclaimed (a pending tick is chosen by the applier's select with probability 1/2
+// at every item, so 1000 items without a sweep cannot happen on correct code).
+func c14Backlog(c *Ctx, cs c14Case) {
+	r := c.R
+	r.Eval(1)
+	c.J.Case(cs)
+	nk := 4096
+	cfg := lab.CacheCfg{NumCounters: 100000, MaxCost: 8, BufferItems: 64, IgnoreInternalCost: true, KeyKind: "uint64", NKeys: nk, TTLTick: 1, SetBuf: 256}
+	l, err := lab.NewLab(cfg)
+	if err != nil {
+		r.Inconc(1)
+		return
+	}
+	defer l.Forget()
+	e := &c14Env{c: c, cs: cs, l: l, cl: l.NewClient()}
+	var applied atomic.Int64
+	l.SetHook(func(point int, arg uint64) {
+		if point == ristretto.VPApplierItemDone {
+			applied.Add(1)
+		}
+	})
+	l.CbDelay = func(kind int) {
+		if kind == lab.EvOnEvict {
+			end := time.Now().Add(20 * time.Microsecond)
+			for time.Now().Before(end) {
+			}
+		}
+	}
+	cl := e.cl
+	sentinel := 0
+	// the sentinel is hot, so capacity evictions never choose it: only expiry processing can reclaim it
+	l.C.Increment(l.Hashes[sentinel][0], 40)
+	alignToBucket()
+	const ttl = 300 * time.Millisecond
+	v := cl.NextVal(sentinel)
+	t1 := time.Now()
+	if !cl.Set(sentinel, v, 1, ttl) {
+		r.Inconc(1)
+		l.C.Close()
+		return
+	}
+	cl.Wait()
+	t1 = time.Now()
+	sweepable := time.Unix(ristretto.VerifStorageBucket(t1.Add(ttl)), 0) // bucket b is swept once the wall clock reaches second b
+	stop := make(chan struct{})
+	var wg sync.WaitGroup
+	for w := 0; w < 8; w++ {
+		wg.Add(1)
+		cw := l.NewClient()
+		go func(w int, cw *lab.Client) {
+			defer wg.Done()
+			rng := lab.NewRNG(c.Seed, cs.Stream*17+uint64(w))
+			for {
+				select {
+				case <-stop:
+					return
+				default:
+				}
+				k := 1 + rng.Intn(nk-1)
+				cw.Set(k, cw.NextVal(k), 1, 0)
+				if len(cw.Log) > 300000 {
+					cw.Log = cw.Log[:0] // keep the log bounded; the oracle below does not need it
+				}
+			}
+		}(w, cw)
+	}
+	// wait until the bucket has been sweepable for 3 s, then look
+	for time.Now().Before(sweepable.Add(200 * time.Millisecond)) {
+		time.Sleep(20 * time.Millisecond)
+	}
+	a0 := applied.Load()
+	time.Sleep(3 * time.Second)
+	a1 := applied.Load()
+	l.C.Pause()
+	snap := l.C.Snapshot()
+	l.C.Resume()
+	close(stop)
+	wg.Wait()
+	_, accounted := snap.KeyCosts[l.Hashes[sentinel][0]]
+	stored := false
+	for _, en := range snap.Entries {
+		if en.Value == v {
+			stored = true
+		}
+	}
+	ev, ex := valueEvents(l.CallbacksSince(0), v)
+	r.Obs("backlog_cases", 1)
+	r.Obs("backlog_items_applied_in_window", a1-a0)
+	e.tr("bucket sweepable at %v; %d items applied in the 3 s window; sentinel stored=%v accounted=%v OnEvict=%d OnExit=%d; buffer length at the end %d", sweepable.Format("15:04:05"), a1-a0, stored, accounted, ev, ex, snap.SetBufLen)
+	switch {
+	case a1-a0 < 1000:
+		r.Inconc(1)
+		r.Note("C14 backlog: only %d items applied in the window (machine stalled?)", a1-a0)
+	case stored || accounted || ev != 1 || ex != 1:
+		e.fail("expired-entry-not-reclaimed-under-write-load", fmt.Sprintf("an entry whose ttl (%v) elapsed has been sweepable for 3 s while the applier applied %d items, but it is still stored=%v accounted=%v (OnEvict=%d OnExit=%d): expiry processing is starved while writes are pending", ttl, a1-a0, stored, accounted, ev, ex))
+	default:
+		r.DistinctKey("backlog/reclaimed/%d", min(int((a1-a0)/20000), 5))
+	}
+	cl.Wait()
+	l.C.Close()
+	if !e.bad {
+		r.Sample(1, map[string]any{"case": cs, "trace": e.trace})
+	}
 }
